@@ -80,6 +80,7 @@ type Node struct {
 	PadTo   int
 	GlueIn  bool // in-path placeholders glued to an option: -i={i:x}
 	NoSpawn bool // Process.Spawn = false (a documented field the library ignores)
+	BgTail  bool // the command returns while a child of it still writes the rest of the first output
 	// TagArgs: "port.key" names of tags (scipipe qualifies a task's tags with the
 	// in-port they arrived on) whose values the command receives through
 	// {t:port.key} placeholders (as -p tg_<port>_<key>=<value>: they enter the result)
